@@ -177,17 +177,34 @@ def library_docs():
 
 
 def decorated_docs(blocks, per_doc=120):
-    """The optional per-item fields solc emits: `modifierDepth` (code inlined from a modifier) on every item, tag and
-    JUMPDEST included, and `jumpType` on JUMPs."""
+    """The optional per-item fields solc emits: `modifierDepth` (code inlined from a modifier) on items of every kind,
+    tag and JUMPDEST included, and `jumpType` on JUMPs.  Every second block is closed by a JUMP (an internal call or
+    return, the way solc ends most blocks); over the JUMPs all four combinations of the two fields occur, and every
+    fourth run of five items carries no `modifierDepth`."""
     out = []
     for d in spliced_docs(blocks, per_doc):
         d = copy.deepcopy(d)
         for _p, items in docs.code_streams(d):
+            k = 0
+            i = 0
+            while i < len(items):
+                if items[i]["name"] == "tag" and i > 0 and items[i - 1]["name"] not in ("JUMP", "STOP", "REVERT", "RETURN", "INVALID"):
+                    k += 1
+                    if k % 2 == 0:
+                        items.insert(i, {"begin": 3, "end": 4, "name": "JUMP", "source": 0})
+                        i += 1
+                i += 1
             n = 0
             for i, it in enumerate(items):
-                it["modifierDepth"] = 1 + (i // 5) % 3
+                if (i // 5) % 4 != 3:
+                    it["modifierDepth"] = 1 + (i // 5) % 3
                 if it["name"] == "JUMP":
-                    it["jumpType"] = ("[in]", "[out]")[n % 2]
+                    if n % 3 != 2:
+                        it["jumpType"] = ("[in]", "[out]")[n % 2]
+                    if n % 4 == 1:
+                        it.pop("modifierDepth", None)
+                    elif n % 4 == 2:
+                        it["modifierDepth"] = 2
                     n += 1
         out.append(d)
     return out
